@@ -16,7 +16,7 @@ theorem magic_idx : SERIALIZED_BOC_IDX_PREFIX = magicIdx := by decide
 theorem magic_idx_crc : SERIALIZED_BOC_IDX_CRC32C = magicIdxCrc := by decide
 
 /-- one field of the returned record: regenerated value = hand model value -/
-macro "hdr_field" : tactic =>
+macro "hdr_field0" : tactic =>
   `(tactic| first
       | rfl
       | decide
@@ -29,12 +29,19 @@ macro "hdr_field" : tactic =>
       | (rw [and16, and8])
       | exact map_range_uints _ _ _ _ _ _ (by omega) (by omega) (by omega)
       | exact congrArg some (map_range_uints _ _ _ _ _ _ (by omega) (by omega) (by omega))
+      | exact map_range_uints' _ _ _ _ _ _ (by omega) (by omega) (by omega)
+      | exact congrArg some (map_range_uints' _ _ _ _ _ _ (by omega) (by omega) (by omega))
       | (apply drop_take_congr <;> omega))
 
-/-- the accepted case: both sides are `some` of a record -/
+macro "hdr_field" : tactic =>
+  `(tactic| first
+      | hdr_field0
+      | (simp only [Bool.false_eq_true, if_true, if_false, *] <;> hdr_field0))
+
+/-- the accepted case: both sides are `some` of a record; compare entry by entry -/
 macro "hdr_accept" : tactic =>
-  `(tactic| (simp only [Option.map_some, HeaderOut.ofModel, Option.some.injEq, HeaderOut.mk.injEq, Bool.false_eq_true, if_true, if_false, *]
-             refine ⟨?_, ?_, ?_, ?_, ?_, ?_, ?_, ?_, ?_, ?_, ?_, ?_, ?_⟩ <;> hdr_field))
+  `(tactic| (refine congrArg some ?_
+             apply HeaderOut.eq_of <;> dsimp only [HeaderOut.ofModel] <;> hdr_field))
 
 /-- a leaf of the case analysis: the context fixes one path of the hand model (facts of `Path`); unfold the regenerated
 function (helpers and slices down to `List.take` / `List.drop` on both sides, so that the atoms of `omega` coincide) and
@@ -47,9 +54,12 @@ macro "hdr_leaf" d:term : tactic =>
              leval
              first | rfl | hdr_accept))
 
-/-- the facts of `Fixed`, with the values of the counters substituted -/
-macro "hdr_fixed" hx:ident : tactic =>
-  `(tactic| (obtain ⟨hfl, hpre, hs, h5, hcells, hroots, habsent, htot⟩ := $hx
+/-- the facts of `Fixed`, with the values of the counters substituted; `a * b = b * a` for the two products the header
+arithmetic contains (for `omega` they are different atoms, and the source may write either order) -/
+macro "hdr_fixed" hx:ident fl:ident off:ident cells:ident roots:ident : tactic =>
+  `(tactic| (have hcomm1 := Nat.mul_comm $off $cells
+             have hcomm2 := Nat.mul_comm $roots ($fl).sizeBytes
+             obtain ⟨hfl, hpre, hs, h5, hcells, hroots, habsent, htot⟩ := $hx
              subst hcells hroots habsent htot
              cases hfl))
 
@@ -71,30 +81,30 @@ theorem header_early (data : Bytes) (hp : PathEarly data) : header data = none :
       (have hl4 := lt_length_of_getElem?_eq_some ‹data[4]? = _›
        hdr_leaf data)
   | size0 hfl hpre h5 hs => cases hfl <;> dsimp only at * <;> hdr_leaf data
-  | rootsShort hx hg h => hdr_fixed hx <;> dsimp only at * <;> first | contradiction | hdr_leaf data
-  | rootsNe1 hx hg h => hdr_fixed hx <;> dsimp only at * <;> first | contradiction | hdr_leaf data
-  | idxShort hx hr hi h => hdr_fixed hx <;> cases hr <;> dsimp only at * <;> first | contradiction | hdr_leaf data
-  | off0 hx hr hi h h0 => hdr_fixed hx <;> cases hr <;> dsimp only at * <;> first | contradiction | hdr_leaf data
+  | @rootsShort fl off cells roots absent tot hx hg h => hdr_fixed hx fl off cells roots <;> dsimp only at * <;> first | contradiction | hdr_leaf data
+  | @rootsNe1 fl off cells roots absent tot hx hg h => hdr_fixed hx fl off cells roots <;> dsimp only at * <;> first | contradiction | hdr_leaf data
+  | @idxShort fl off cells roots absent tot rlen rl hx hr hi h => hdr_fixed hx fl off cells roots <;> cases hr <;> dsimp only at * <;> first | contradiction | hdr_leaf data
+  | @off0 fl off cells roots absent tot rlen rl hx hr hi h h0 => hdr_fixed hx fl off cells roots <;> cases hr <;> dsimp only at * <;> first | contradiction | hdr_leaf data
 
 set_option maxRecDepth 2000 in
 theorem header_mid (data : Bytes) (hp : PathMid data) : header data = none := by
   cases hp with
-  | totShort hx hr hix h =>
-    hdr_fixed hx <;> cases hr <;> cases hix <;> dsimp only at * <;> first | contradiction | hdr_leaf data
-  | crcShort hx hr hix ht hc h =>
-    hdr_fixed hx <;> cases hr <;> cases hix <;> dsimp only at * <;> first | contradiction | hdr_leaf data
-  | crcNone hx hr hix ht hc h hcrc =>
-    hdr_fixed hx <;> cases hr <;> cases hix <;> dsimp only at * <;> first | contradiction | hdr_leaf data
-  | crcBad hx hr hix ht hc h c hcrc hne =>
-    hdr_fixed hx <;> cases hr <;> cases hix <;> dsimp only at * <;> first | contradiction | hdr_leaf data
+  | @totShort fl off cells roots absent tot rlen rl ilen ix hx hr hix h =>
+    hdr_fixed hx fl off cells roots <;> cases hr <;> cases hix <;> dsimp only at * <;> first | contradiction | hdr_leaf data
+  | @crcShort fl off cells roots absent tot rlen rl ilen ix hx hr hix ht hc h =>
+    hdr_fixed hx fl off cells roots <;> cases hr <;> cases hix <;> dsimp only at * <;> first | contradiction | hdr_leaf data
+  | @crcNone fl off cells roots absent tot rlen rl ilen ix hx hr hix ht hc h hcrc =>
+    hdr_fixed hx fl off cells roots <;> cases hr <;> cases hix <;> dsimp only at * <;> first | contradiction | hdr_leaf data
+  | @crcBad fl off cells roots absent tot rlen rl ilen ix hx hr hix ht hc h c hcrc hne =>
+    hdr_fixed hx fl off cells roots <;> cases hr <;> cases hix <;> dsimp only at * <;> first | contradiction | hdr_leaf data
 
 set_option maxRecDepth 2000 in
 theorem header_end (data : Bytes) (v : Option Header) (hp : PathEnd data v) : header data = v.map HeaderOut.ofModel := by
   cases hp with
-  | trailing hx hr hix ht hc h =>
-    hdr_fixed hx <;> cases hr <;> cases hix <;> cases hc <;> dsimp only at * <;> first | contradiction | hdr_leaf data
-  | accept hx hr hix ht hc h =>
-    hdr_fixed hx <;> cases hr <;> cases hix <;> cases hc <;> dsimp only at * <;> first | contradiction | hdr_leaf data
+  | @trailing fl off cells roots absent tot rlen rl ilen ix clen hx hr hix ht hc h =>
+    hdr_fixed hx fl off cells roots <;> cases hr <;> cases hix <;> cases hc <;> dsimp only at * <;> first | contradiction | hdr_leaf data
+  | @accept fl off cells roots absent tot rlen rl ilen ix clen hx hr hix ht hc h =>
+    hdr_fixed hx fl off cells roots <;> cases hr <;> cases hix <;> cases hc <;> dsimp only at * <;> first | contradiction | hdr_leaf data
 
 theorem header_of_path (data : Bytes) (v : Option Header) (hp : Path data v) : header data = v.map HeaderOut.ofModel := by
   cases hp with
